@@ -17,6 +17,10 @@ TNext ==
      \/ Ev.ev = "end" /\ PEnd(Ev.sha_ok, Ev.len_ok)
      \/ Ev.ev = "note" /\ PNote
 TSpec == TInit /\ [][TNext]_<<pvars, l>>
+\* batch mode (C01_trace_all.cfg): print the first violated obligation of every trace and carry on,
+\* so that one TLC run partitions a whole batch; rejected traces are then confirmed under TSpec
+Report == (bad = "" /\ bad' # "") => PrintT(<<"REJECT", l, bad'>>)
+TSpecAll == TInit /\ [][TNext /\ Report]_<<pvars, l>>
 HW == TLCSet(1, IF TLCGet(1) > l THEN TLCGet(1) ELSE l)
 Accepted == PrintT(<<"HIGHWATER", TLCGet(1), Len(Log)>>)
 ASSUME TLCSet(1, 0)
